@@ -436,6 +436,10 @@ func fill(r *rand.Rand, s *Schema, d *DNode, schemaKids []*SNode, o DataOpts) {
 						if ks.Type.Base == "string" && v == "" {
 							v = "k"
 						}
+						if len(c.Keys) > 1 && len(l.Entries) > 0 && r.Intn(2) == 0 {
+							// entries of a compound key often share a part: only the whole tuple tells them apart
+							v = l.Entries[r.Intn(len(l.Entries))].Leaves[kn].V[0]
+						}
 						e.Leaves[kn] = &LVal{V: []string{v}}
 					}
 					if dup, _ := l.Find(e.Key()); dup != nil {
